@@ -195,7 +195,9 @@ impl<T> Pool<T> {
         })?;
         let obj = {
             let mut queue = inner.queue.lock().unwrap();
-            queue.pop().unwrap()
+            // The queue can only be empty here if `close()` cleared it after
+            // the permit was acquired.
+            queue.pop().ok_or(PoolError::Closed)?
         };
         permit.forget();
         let _ = inner.available.fetch_sub(1, Ordering::Relaxed);
@@ -234,7 +236,9 @@ impl<T> Pool<T> {
         }?;
         let obj = {
             let mut queue = inner.queue.lock().unwrap();
-            queue.pop().unwrap()
+            // The queue can only be empty here if `close()` cleared it after
+            // the permit was acquired.
+            queue.pop().ok_or(PoolError::Closed)?
         };
         permit.forget();
         let _ = inner.available.fetch_sub(1, Ordering::Relaxed);
